@@ -119,3 +119,38 @@ class gnu_hash:
     returns = Int
     loops = {0: dict(invariant=["h % 2**32 == gnuhash32(key, $k)", "h >= 0"])}
     ensures = ["result == gnuhash32(key, len(key))"]
+from specs.hash import u32at
+
+GnuParams = Rec(nbuckets=U32, symoffset=U32, bloom_size=U32, bloom_shift=U32, bloom=ListOf(U64), buckets=ListOf(U32))
+GnuTabT = Obj('GNUHashTable', elffile=ELFFileT(), _symboltable=Any, params=GnuParams, _wordsize=Const(4),
+              _xwordsize=OneOf(4, 8), _chain_pos=Nat)
+
+
+@contract("elftools/elf/hash.py", "GNUHashTable.get_number_of_symbols", props=["C03", "C09", "C19"])
+class gnu_count:
+    """the hashed part starts at symoffset; the symbol count is one past the last chain entry:
+    walk the chain of the bucket with the highest symbol index ($m0) to the first entry whose low
+    bit is set.  No bucket at or above symoffset: exactly symoffset symbols."""
+    params = dict(self=GnuTabT)
+    requires = ["len(self.params.buckets) == self.params.nbuckets", "self.params.nbuckets > 0",
+                "self._chain_pos < 2**62"]
+    returns = Int
+    ghost = {"$B": "self.elffile.stream.B", "$le": "self.elffile.little_endian",
+             "$so": "self.params.symoffset", "$cp": "self._chain_pos", "$m0": "max(self.params.buckets)"}
+    loops = {0: dict(
+        invariant=["max_idx == $m0 + $k", "$m0 >= $so",
+                   "self.elffile.stream.pos == $cp + (max_idx - $so) * 4",
+                   "forall(lambda j: u32at($B, $cp + (j - $so) * 4, $le) % 2 == 0, $m0, max_idx)"],
+        variant="len($B) + 4 - self.elffile.stream.pos")}
+    ensures = ["$m0 >= $so or result == $so",
+               "$m0 < $so or (result - 1 >= $m0 and u32at($B, $cp + (result - 1 - $so) * 4, $le) % 2 == 1)",
+               "$m0 < $so or forall(lambda j: u32at($B, $cp + (j - $so) * 4, $le) % 2 == 0, $m0, result - 1)"]
+    may_raise = ["error"]     # struct.error when the chain runs past the end of the file
+
+
+@contract("elftools/elf/hash.py", "ELFHashTable.get_number_of_symbols", props=["C03", "C09", "C19"])
+class sysv_count:
+    """SysV: nchains equals the number of symbol table entries"""
+    params = dict(self=Obj('ELFHashTable', params=Rec(nbuckets=U32, nchains=U32)))
+    returns = Int
+    ensures = ["result == self.params.nchains"]
